@@ -32,9 +32,14 @@ def write(prop, tier, seed, results, violations, known_hits, undecided, wall):
     cmds = []
     trusted_callees = set()
     bounded = []
+    kf_regions = []
     for r in results:
-        n_ob += r.get('n_obligations', 0)
-        n_dis += r.get('n_discharged', 0)
+        if '#kf' in r['job']:
+            # the sub-job restricted to a known finding's input pattern: its obligations are reported apart
+            kf_regions.append(dict(job=r['job'], obligations=r.get('n_obligations', 0), discharged=r.get('n_discharged', 0)))
+        else:
+            n_ob += r.get('n_obligations', 0)
+            n_dis += r.get('n_discharged', 0)
         fn = dict(job=r['job'], function=r['func'], status=r['status'], obligations=r.get('n_obligations', 0),
                   discharged=r.get('n_discharged', 0), backend=r.get('backend'), solver_s=r.get('solver_s'),
                   canary_reached=r.get('canary_ok'), source=r.get('metas'), extraction_rules=r.get('rules'),
@@ -75,6 +80,7 @@ def write(prop, tier, seed, results, violations, known_hits, undecided, wall):
                functions_count=len(set(r['func'] for r in results)),
                solver_seconds_total=round(sum(r.get('solver_s', 0) or 0 for r in results), 1),
                bounded_standins=meta.get('bounded', []), clauses_not_decided=meta.get('not_decided', []),
+               known_finding_regions=kf_regions,
                known_findings=[dict(job=r['job'], obligation=f.get('clause') or f['desc'], what=h['what']) for r, f, h in known_hits],
                undecided=[dict(job=r['job'], why=r['diag'][:300]) for r in undecided],
                explanation=meta.get('explanation', ''))
